@@ -375,6 +375,19 @@ func c05Scenarios(tier string) []*Scenario {
 									vrt.Fail(fmt.Sprintf("AcquirePermits under a context with deadline %d from t=%d returned %v at t=%d", w, c.at, err, c.ret))
 									return
 								}
+							case "acquiredlmax": // blocking acquire with a max wait of 300 under a context whose own deadline is w from now
+								ctx, cancel := vcontext.WithDeadline(context.Background(), time.Unix(0, vrt.Now()).Add(time.Duration(w)))
+								err := rl.AcquirePermitsWithMaxWait(ctx, uint(k), 300)
+								cancel()
+								c.ret, c.err = vrt.Elapsed(), err
+								c.wait = -2
+								if errors.Is(err, ratelimiter.ErrExceeded) {
+									c.wait = -1 // a refusal: nothing is reserved
+									c.op = fmt.Sprintf("tryreserve:%d:300", k)
+								} else if err != nil && c.ret != c.at+w {
+									vrt.Fail(fmt.Sprintf("AcquirePermitsWithMaxWait under a context with deadline %d from t=%d returned %v at t=%d", w, c.at, err, c.ret))
+									return
+								}
 							case "sleep":
 								vrt.Sleep(k)
 								continue
@@ -449,7 +462,12 @@ func c05Scenarios(tier string) []*Scenario {
 	for _, d := range []int{50, 100, 150} {
 		add("smooth-own-deadline", sm, [][]string{{"reserve:1", fmt.Sprintf("acquiredl:1:%d", d), "acquire:1:300"}})
 	}
+	// the same through AcquirePermitsWithMaxWait (the wait is within the max wait: a refusal would have to leave nothing behind)
+	for _, d := range []int{50, 150} {
+		add("smooth-own-deadline-maxwait", sm, [][]string{{"reserve:1", fmt.Sprintf("acquiredlmax:1:%d", d), "tryreserve:1:1000"}})
+	}
 	bu := Spec{Kind: KLimiter, Permits: 2, Period: 100}
+	add("bursty-own-deadline-maxwait", bu, [][]string{{"reserve:2", "acquiredlmax:1:50", "tryreserve:2:1000"}})
 	add("bursty-own-deadline", bu, [][]string{{"reserve:2", "acquiredl:1:50", "tryreserve:2:300"}})
 	add("bursty-try", bu, [][]string{{"try:1"}, {"try:1"}, {"try:1"}})
 	add("bursty-try2", bu, [][]string{{"try:2"}, {"try:1"}})
